@@ -1,7 +1,7 @@
 #!/bin/sh
 # usage: import_seed.sh <prop> <n> <agent worktree>   — copy an agent's out/change<n>.diff etc. to seeded/<prop>_r2_<n>/ and verify it there
 set -u
-P=$1; N=$2; W=$3; D=/verif/seeded/${P}_r2_$N
+P=$1; N=$2; W=$3; D=/verif/seeded/${P}_${R:-r2}_$N
 mkdir -p $D
 cp $W/out/change$N.diff $D/patch.diff; cp $W/out/demo$N.rs $D/demo.rs; cp $W/out/README$N.md $D/README.agent.md
 CARGO_NET_OFFLINE=true /verif/tools/verify_seed.sh $D $W
